@@ -19,6 +19,9 @@ SIGMA_B = ["a", " ", "''", "'''", "[[a]]", "[[", "]]", "{{T}}", "{{{1}}}", "}}",
            "&lt;nowiki&gt;", "&lt;/nowiki&gt;", "&lt;b&gt;", "&#60;", "&#x3E;", "&amp;lt;", "&quot;", "&", "&amp ", "&bogus;",
            # closing tags of the OTHER opaque tags (a body never contains its own)
            "</source>", "</pre>", "</math>", "</syntaxhighlight>", "</timeline>"]
+# bodies of length 3 (thorough) are built from this structurally significant subset; lengths 1 and 2 from the whole alphabet
+SIGMA_B3 = ["a", " ", "''", "[[", "]]", "{{T}}", "{{{1}}}", "}}", "{{", "|", "=", "<b>", "<!--", "&amp;", "\n* ", "\n{|", "<nowiki>", "</nowiki>",
+            "<ref>", "<noinclude>", "</noinclude>", "&lt;nowiki&gt;", "&", "</source>"]
 S0, S1 = "Sxq0", "Sxq1"
 CONTEXTS = [
     ("top", "%s", {}),
@@ -97,7 +100,7 @@ def shape(node, out):
 
 class C09(InputProp):
     id = "C09"
-    rule = ("6 tags x 22 contexts (with and without a wiki database; + 5 argument-consuming functions judged by 'no marker debris') x every body over a 55-lexeme markup alphabet up to the length bound (bodies containing the tag's own "
+    rule = ("6 tags x 22 contexts (with and without a wiki database; + 5 argument-consuming functions judged by 'no marker debris') x every body over a 55-lexeme markup alphabet up to length 2 (thorough: plus length 3 over a 24-lexeme subset) (bodies containing the tag's own "
             "closing tag excluded); distinct = distinct (tag, context, tree shape) outcomes")
     assumptions = ("bodies are sequences of the 55 lexemes of SIGMA_B", "the reserved marker byte 0x7f does not occur in bodies (excluded by the statement)")
     chunk = 1500
@@ -109,7 +112,9 @@ class C09(InputProp):
         Uniquifier.random_string = "0123456789abcdef"
         self.Uniquifier = Uniquifier
         self.parse = uparser.parse_string
-        bodies = Product(TAGS, [c[0] for c in CONTEXTS if c[0] not in HEAVY_CONTEXTS], Seqs(SIGMA_B, 2 if tier == "quick" else 3, minlen=1), name="bodies")
+        light = [c[0] for c in CONTEXTS if c[0] not in HEAVY_CONTEXTS]
+        bodies = Product(TAGS, light, Seqs(SIGMA_B, 2, minlen=1), name="bodies")
+        bodies3 = Product(TAGS, light, Seqs(SIGMA_B3, 3, minlen=3), name="bodies")
         heavy = Product(TAGS, HEAVY_CONTEXTS, Seqs(SIGMA_B, 1 if tier == "quick" else 2, minlen=1), name="bodies")
         # the same region once inside <nowiki> and once for real on one page (one Uniquifier): markers must not be shared
         twins = Product(["math", "pre", "source", "syntaxhighlight", "timeline"], ["real-first", "nowiki-first"],
@@ -117,7 +122,7 @@ class C09(InputProp):
         consumed = Product(TAGS, sorted(CONSUMING), Seqs(SIGMA_B, 1 if tier == "quick" else 2, minlen=1), name="consumed")
         # the function form of a tag with its body protected by <nowiki>: {{#tag:source|<nowiki>code</nowiki>}}
         tagfn = Product(["pre", "source", "syntaxhighlight", "math", "timeline"], ["tag-function"], Seqs(SIGMA_B, 1 if tier == "quick" else 2, minlen=1), name="tagfn")
-        self.space = Concat(bodies, heavy, twins, consumed, tagfn)
+        self.space = Concat(bodies, heavy, twins, consumed, tagfn) if tier == "quick" else Concat(bodies, bodies3, heavy, twins, consumed, tagfn)
         self.ctx = {c[0]: c for c in CONTEXTS}
         self.baselines = {}
 
